@@ -1,8 +1,8 @@
 Require Import ZArith List. Require Extraction. Require Import ExtrOcamlBasic.
 Require Import IW.Lib.CInt IW.Gen.Facts IW.FS.Bits IW.FS.Fsm.
 Extraction "m.ml" Z.add Z.mul Z.sub Z.div_eucl Z.compare Z.of_nat Z.to_nat Z.opp
-  mkVariant open_new allocate reallocate deallocate check_allocation_status clear sync close reopen
+  mkVariant open_new open_new_max allocate reallocate deallocate check_allocation_status clear sync close reopen
   write_op rw_status mmap_all
   find_next_set_bit find_prev_set_bit w_find_next w_find_prev ffs64 reverse64 bits_of_words
   bm tree lfbkoff lfbklen bmoff bmlen hdrlen bpow fsize crzsum crznum
-  p_bmoff p_bmlen p_crzsum p_crznum hdr_current set_bit_status.
+  p_bmoff p_bmlen p_crzsum p_crznum hdr_current set_bit_status maxoff.
